@@ -180,6 +180,35 @@ def validVariant : List Shape → Nat → Val → Bool
 end
 
 mutual
+/-- `valid` without the key-order and byte-range requirements: what must hold of a value that a
+*view* exposes (containers in stored order): widths, bit-pattern validity classes, UTF-8, known
+enum variants. -/
+def bitsOk : Shape → Val → Bool
+  | .fixed f, .bytes l => l.length == f.size && f.valid l
+  | .list e _, .seq es => es.all (fun x => x.length == e.size && e.valid x)
+  | .set e _, .seq es => es.all (fun x => x.length == e.size && e.valid x)
+  | .map kw v _, .seq es => es.all (fun x => x.length == kw + v.size && v.valid (x.drop kw))
+  | .str _, .bytes l => utf8Valid l
+  | .rem, .bytes _ => true
+  | .ulist e, .useq vs => vs.all (bitsOk e)
+  | .umap kw e, .umap es => es.all (fun kv => kv.1.length == kw && bitsOk e kv.2)
+  | .struct sized fs, .record sz vs =>
+      sz.length == Fixed.sizeList sized && Fixed.validList sized sz && bitsOkFields fs vs
+  | .enum ds ps, .variant i p => decide (i < ds.length) && bitsOkVariant ps i p
+  | .unit, .unit => true
+  | .disc _ inner, v => bitsOk inner v
+  | _, _ => false
+def bitsOkFields : List Shape → List Val → Bool
+  | [], [] => true
+  | f :: fs, v :: vs => bitsOk f v && bitsOkFields fs vs
+  | _, _ => false
+def bitsOkVariant : List Shape → Nat → Val → Bool
+  | p :: _, 0, v => bitsOk p v
+  | _ :: ps, i + 1, v => bitsOkVariant ps i v
+  | [], _, _ => false
+end
+
+mutual
 /-- `FromOwned::byte_size` — also the count `from_owned` returns (`list.rs` 429–450,
 `unsized_list.rs` 103–168, `struct_impl.rs` 534–586, `enum_impl.rs` 285–349, `account.rs` 218–236). -/
 def size : Shape → Val → Nat
@@ -688,7 +717,8 @@ def initOk : Shape → Init → Bool
   | .umap _ _, .default => true
   | .struct _ fs, .default => initOkDefault fs
   | .struct sized fs, .fields sz is =>
-      (if sized.isEmpty then true else initOkFixed (.record sized) sz) && initOkFields fs is
+      (if sized.isEmpty then (match sz with | .default => true | _ => false)
+        else initOkFixed (.record sized) sz) && initOkFields fs is
   | .enum ds ps, .default => (match ds, ps with | _ :: _, p :: _ => initOk p .default | _, _ => false)
   | .enum ds ps, .variant i a => decide (i < ds.length) && initOkVariant ps i a
   | .unit, .default => true
